@@ -521,3 +521,54 @@ func NonMinimalAncestors(root, target *cborx.Node) []*cborx.Node {
 	}
 	return out
 }
+
+// NonMinimalPath is NonMinimalAncestors extended by tags: it returns,
+// outermost first, the containers and tags on the path from root to target
+// (target included) whose own head is not in minimal form.
+func NonMinimalPath(root, target *cborx.Node) []*cborx.Node {
+	var out []*cborx.Node
+	for _, n := range Path(root, target) {
+		if (n.IsContainer() || n.Kind == cborx.Tag) && !n.IsMinimal() {
+			out = append(out, n)
+		}
+	}
+	return out
+}
+
+// TagClasses returns every tag node of the block with a low-cardinality class:
+// "<class of the tagged container>.tag" when the tag wraps an array/map that
+// Classes() knows (e.g. "wit.scripts.tag" for a #6.258 script set), otherwise
+// "<class of the nearest enclosing container>.tag<number>" (e.g.
+// "output-inner.tag24").
+func (l *Layout) TagClasses() []Classified {
+	cls := map[*cborx.Node]string{}
+	for _, c := range l.Classes() {
+		cls[c.Node] = c.Class
+	}
+	ord := map[*cborx.Node]int{}
+	for i, n := range l.Root.Nodes() {
+		ord[n] = i
+	}
+	var out []Classified
+	var walk func(n *cborx.Node, enclosing string)
+	walk = func(n *cborx.Node, enclosing string) {
+		if n.Kind == cborx.Bytes || n.Kind == cborx.Text {
+			return
+		}
+		if n.Kind == cborx.Tag {
+			name := fmt.Sprintf("%s.tag%d", enclosing, n.Arg)
+			if c, ok := cls[n.Items[0]]; ok && n.Items[0].IsContainer() {
+				name = c + ".tag"
+			}
+			out = append(out, Classified{Node: n, Ord: ord[n], Class: name})
+		}
+		if c, ok := cls[n]; ok && n.IsContainer() {
+			enclosing = c
+		}
+		for _, ch := range n.Items {
+			walk(ch, enclosing)
+		}
+	}
+	walk(l.Root, "block")
+	return out
+}
